@@ -1,10 +1,12 @@
 import Model.Common.Proto
+import Model.Common.ECProto
+import Generated.Curves
 open Btc
 
 /-- line protocol of property C01: see harness/c01.py -/
-def handle : List String → String
-  -- one line per generated module this driver serves, e.g.
-  -- | "gen" :: "VarInt" :: fn :: args => (Gen.VarInt.dispatch fn args).getD "bad-op"
-  | _ => "bad-op"
+def handle (args : List String) : String :=
+  match Btc.EC.ecOp args with
+  | some r => r
+  | none => "bad-op"
 
 def main : IO Unit := runLoop handle
